@@ -38,9 +38,21 @@ type OpRef struct {
 // OpRefs is a sortable collection of operations
 type OpRefs []OpRef
 
-func (o OpRefs) Len() int           { return len(o) }
-func (o OpRefs) Swap(i, j int)      { o[i], o[j] = o[j], o[i] }
-func (o OpRefs) Less(i, j int) bool { return o[i].Key < o[j].Key }
+func (o OpRefs) Len() int      { return len(o) }
+func (o OpRefs) Swap(i, j int) { o[i], o[j] = o[j], o[i] }
+func (o OpRefs) Less(i, j int) bool {
+	// a total order: operations that yield the same generated key (e.g. "GET /a" and "GET /{a}")
+	// must not be left in map iteration order
+	if o[i].Key != o[j].Key {
+		return o[i].Key < o[j].Key
+	}
+
+	if o[i].Method != o[j].Method {
+		return o[i].Method < o[j].Method
+	}
+
+	return o[i].Path < o[j].Path
+}
 
 // Provider knows how to collect operations from a spec
 type Provider interface {
